@@ -144,4 +144,58 @@ theorem prod_log_exp (A B : LieModel ℝ) (a : Vec ℝ (A.dof + B.dof))
   show Bundle.prodLog A B (Bundle.prodExp A B a) = a
   simp only [Bundle.prodExp, Bundle.prodLog, fst_vcat', snd_vcat', hA, hB, vcat_fst_snd']
 
+
+/-! ### lifting per-part statements to `Bundle.bundle ps` (induction over the part list) -/
+
+/-- a property of (model, element) holds for every part of a bundle element -/
+def BundleAllG (P : (G : LieModel ℝ) → Vec ℝ G.rep → Prop) :
+    (ps : List (LieModel ℝ)) → Vec ℝ (Bundle.bundle ps).rep → Prop
+  | [], _ => True
+  | p :: ps, g => P p (Bundle.fst (n := p.rep) (m := (Bundle.bundle ps).rep) g) ∧
+      BundleAllG P ps (Bundle.snd (n := p.rep) (m := (Bundle.bundle ps).rep) g)
+
+/-- a property of (model, tangent vector) holds for every part of a bundle tangent vector -/
+def BundleAllT (P : (G : LieModel ℝ) → Vec ℝ G.dof → Prop) :
+    (ps : List (LieModel ℝ)) → Vec ℝ (Bundle.bundle ps).dof → Prop
+  | [], _ => True
+  | p :: ps, a => P p (Bundle.fst (n := p.dof) (m := (Bundle.bundle ps).dof) a) ∧
+      BundleAllT P ps (Bundle.snd (n := p.dof) (m := (Bundle.bundle ps).dof) a)
+
+theorem vec0_eq (u v : Vec ℝ 0) : u = v := by ext i; exact i.elim0
+
+/-- `exp` is the matrix exponential at a bundle tangent vector as soon as it is for every part at
+its slice (pointwise version: parts may be in different branches). -/
+theorem bundle_expIsMatrixExpAt : (ps : List (LieModel ℝ)) → (a : Vec ℝ (Bundle.bundle ps).dof) →
+    BundleAllT ExpIsMatrixExpAt ps a → ExpIsMatrixExpAt (Bundle.bundle ps) a
+  | [], a, _ => unit_expIsMatrixExpAt a
+  | p :: ps, a, h =>
+    prod_expIsMatrixExpAt p (Bundle.bundle ps) a h.1 (bundle_expIsMatrixExpAt ps _ h.2)
+
+/-- `exp (log g) = g` for a bundle element as soon as it holds for every part. -/
+theorem bundle_exp_log : (ps : List (LieModel ℝ)) → (g : Vec ℝ (Bundle.bundle ps).rep) →
+    BundleAllG (fun G x => G.exp (G.log x) = x) ps g →
+    (Bundle.bundle ps).exp ((Bundle.bundle ps).log g) = g
+  | [], _, _ => vec0_eq _ _
+  | p :: ps, g, h => prod_exp_log p (Bundle.bundle ps) g h.1 (bundle_exp_log ps _ h.2)
+
+/-- `log (exp a) = a` for a bundle tangent vector as soon as it holds for every part. -/
+theorem bundle_log_exp : (ps : List (LieModel ℝ)) → (a : Vec ℝ (Bundle.bundle ps).dof) →
+    BundleAllT (fun G x => G.log (G.exp x) = x) ps a →
+    (Bundle.bundle ps).log ((Bundle.bundle ps).exp a) = a
+  | [], _, _ => vec0_eq _ _
+  | p :: ps, a, h => prod_log_exp p (Bundle.bundle ps) a h.1 (bundle_log_exp ps _ h.2)
+
+/-- the parts of `log g` are the `log`s of the parts of `g`: any per-part property of the
+logarithm (e.g. "rotation norm ≤ π") lifts to the bundle. -/
+theorem bundle_log_all (Q : (G : LieModel ℝ) → Vec ℝ G.dof → Prop) :
+    (ps : List (LieModel ℝ)) → (g : Vec ℝ (Bundle.bundle ps).rep) →
+    BundleAllG (fun G x => Q G (G.log x)) ps g → BundleAllT Q ps ((Bundle.bundle ps).log g)
+  | [], _, _ => trivial
+  | p :: ps, g, h => by
+    have e1 : Bundle.fst (n := p.dof) (m := (Bundle.bundle ps).dof)
+        ((Bundle.bundle (p :: ps)).log g) = p.log (Bundle.fst g) := fst_vcat' _ _
+    have e2 : Bundle.snd (n := p.dof) (m := (Bundle.bundle ps).dof)
+        ((Bundle.bundle (p :: ps)).log g) = (Bundle.bundle ps).log (Bundle.snd g) := snd_vcat' _ _
+    exact ⟨e1 ▸ h.1, e2 ▸ bundle_log_all Q ps _ h.2⟩
+
 end C02
